@@ -208,12 +208,14 @@ class WSGIContainer:
         .. versionchanged:: 6.3
            No longer a static method.
         """
-        hostport = request.host.split(":")
-        if len(hostport) == 2:
-            host = hostport[0]
-            port = int(hostport[1])
+        # request.host is ``uri-host [ ":" [ port ] ]``; an IPv6 literal is
+        # bracketed and contains colons itself, and the port may be empty.
+        host, sep, port_str = request.host.rpartition(":")
+        if not sep or port_str.endswith("]"):
+            host, port_str = request.host, ""
+        if port_str:
+            port = int(port_str)
         else:
-            host = request.host
             port = 443 if request.protocol == "https" else 80
         environ = {
             "REQUEST_METHOD": request.method,
